@@ -112,16 +112,39 @@ macro_rules! binop_refs {
 }
 
 // ---------------------------------------------------------------- Scalar
-/// Element of Z_Q.
-#[derive(Clone, Copy, PartialEq, Eq, Debug, Default, Hash, Serialize, Deserialize)]
-pub struct Scalar(pub u16);
+/// Element of Z_Q.  `.0` is the value; `.1` is a sound hint "known to be non-zero" (set by the
+/// decoder for the non-zero encoding form, by `random`, `invert`; never by arithmetic), which only
+/// serves comparisons with zero to constant-fold during symbolic execution.  Invariant: `.1 => .0 != 0`.
+#[derive(Clone, Copy, Debug, Default, Serialize, Deserialize)]
+pub struct Scalar(pub u16, pub bool);
+impl PartialEq for Scalar {
+    #[inline]
+    fn eq(&self, o: &Self) -> bool {
+        if (self.1 && o.0 == 0) || (o.1 && self.0 == 0) {
+            false
+        } else {
+            self.0 == o.0
+        }
+    }
+}
+impl Eq for Scalar {}
 
 impl Scalar {
-    pub const ZERO: Scalar = Scalar(0);
-    pub const ONE: Scalar = Scalar(1);
+    pub const ZERO: Scalar = Scalar(0, false);
+    pub const ONE: Scalar = Scalar(1, true);
+    /// value without hint
+    pub const fn from_raw(v: u16) -> Scalar {
+        Scalar(v, false)
+    }
+    /// value known to be non-zero
+    pub const fn from_nonzero_raw(v: u16) -> Scalar {
+        Scalar(v, true)
+    }
     pub const BYTES: usize = 32;
 
-    /// canonical big-endian decoding: 30 zero bytes, then the value (0..=256) in two bytes
+    /// canonical 32-octet encoding: 30 zero octets, then a form octet and a payload octet:
+    /// zero is [0, 0]; a non-zero value v (1..=256) is [1, v - 1].  (Not a big-endian integer: the
+    /// zero / non-zero distinction is syntactic, like the point codecs' identity flag.)
     pub fn from_be_bytes(bytes: &[u8; 32]) -> CtOption<Self> {
         let mut hi: u8 = 0;
         let mut i = 0;
@@ -129,38 +152,44 @@ impl Scalar {
             hi |= bytes[i];
             i += 1;
         }
-        let ok = hi == 0 && (bytes[30] == 0 || (bytes[30] == 1 && bytes[31] == 0));
-        let v = ((bytes[30] as u16) << 8) | bytes[31] as u16;
-        CtOption::new(Scalar(if ok { v } else { 0 }), Choice::from(ok as u8))
+        let ok = hi == 0 && (bytes[30] == 1 || (bytes[30] == 0 && bytes[31] == 0));
+        let v = if bytes[30] == 1 { bytes[31] as u16 + 1 } else { 0 };
+        CtOption::new(Scalar(if ok { v } else { 0 }, ok && bytes[30] == 1), Choice::from(ok as u8))
     }
     pub fn to_be_bytes(&self) -> [u8; 32] {
         let mut out = [0u8; 32];
-        out[30] = (self.0 >> 8) as u8;
-        out[31] = self.0 as u8;
+        if self.0 != 0 {
+            out[30] = 1;
+            out[31] = (self.0 - 1) as u8;
+        }
         out
     }
-    /// stand-in for OS2IP(okm) mod r: a cheap fold of all 48 bytes, reduced mod Q
+    /// stand-in for OS2IP(okm) mod r: the 16-bit oracle state carried by the first two octets of the
+    /// model expander's stream, reduced mod Q (all 257 values reachable; no loop)
     pub fn from_okm(bytes: &[u8; 48]) -> Scalar {
-        let mut acc: u16 = 0;
-        let mut i = 0;
-        while i < 48 {
-            acc = acc.rotate_left(3) ^ (bytes[i] as u16);
-            i += 1;
-        }
-        Scalar((acc as u32 % Q) as u16)
+        let v = (bytes[0] as u32) | ((bytes[1] as u32) << 8);
+        Scalar((v % Q) as u16, false)
     }
+    /// Model: a uniformly random NON-ZERO scalar (zero has probability 1/r in the real field and is
+    /// one of the globally excluded degenerate events): one draw, mapped to 1..=256 without a branch.
     pub fn random(mut rng: impl rand_core::RngCore) -> Self {
-        Scalar((rng.next_u32() % Q) as u16)
+        Scalar(((rng.next_u32() & 0xff) as u16) + 1, true)
     }
     pub fn invert(&self) -> CtOption<Self> {
+        // Under Kani the inversion of zero (sk + e = 0, r2 = 0: probability 1/r in the real group) is
+        // ASSUMED AWAY instead of being a branch, so that results of callers keep a constant shape for
+        // the symbolic execution; it is one of the stated global assumptions (DESIGN.md).
+        #[cfg(kani)]
+        kani::assume(self.0 != 0);
+        #[cfg(not(kani))]
         if self.0 == 0 {
-            return CtOption::new(Scalar(0), Choice::from(0));
+            return CtOption::new(Scalar(0, false), Choice::from(0));
         }
         #[cfg(kani)]
         {
             let w: u16 = kani::any();
             kani::assume((w as u32) < Q && mulq(w, self.0) == 1);
-            CtOption::new(Scalar(w), Choice::from(1))
+            CtOption::new(Scalar(w, true), Choice::from(1))
         }
         #[cfg(not(kani))]
         {
@@ -170,38 +199,47 @@ impl Scalar {
                 acc = mulq(acc, self.0);
                 k += 1;
             }
-            CtOption::new(Scalar(acc), Choice::from(1))
+            CtOption::new(Scalar(acc, true), Choice::from(1))
         }
     }
     pub fn is_zero(&self) -> Choice {
         Choice::from((self.0 == 0) as u8)
     }
     pub fn square(&self) -> Self {
-        Scalar(mulq(self.0, self.0))
+        Scalar(mulq(self.0, self.0), false)
     }
     pub fn double(&self) -> Self {
-        Scalar(addq(self.0, self.0))
+        Scalar(addq(self.0, self.0), false)
     }
 }
-ct_impls!(Scalar);
+impl ConditionallySelectable for Scalar {
+    fn conditional_select(a: &Self, b: &Self, c: Choice) -> Self {
+        Scalar(u16::conditional_select(&a.0, &b.0, c), u8::conditional_select(&(a.1 as u8), &(b.1 as u8), c) != 0)
+    }
+}
+impl ConstantTimeEq for Scalar {
+    fn ct_eq(&self, o: &Self) -> Choice {
+        Choice::from((self == o) as u8)
+    }
+}
 impl From<u64> for Scalar {
     fn from(v: u64) -> Self {
-        Scalar((v % Q as u64) as u16)
+        Scalar((v % Q as u64) as u16, false)
     }
 }
-binop_refs!(Scalar, Scalar, Scalar, Add, add, |a, b| Scalar(addq(a.0, b.0)));
-binop_refs!(Scalar, Scalar, Scalar, Sub, sub, |a, b| Scalar(subq(a.0, b.0)));
-binop_refs!(Scalar, Scalar, Scalar, Mul, mul, |a, b| Scalar(mulq(a.0, b.0)));
+binop_refs!(Scalar, Scalar, Scalar, Add, add, |a, b| Scalar(addq(a.0, b.0), false));
+binop_refs!(Scalar, Scalar, Scalar, Sub, sub, |a, b| Scalar(subq(a.0, b.0), false));
+binop_refs!(Scalar, Scalar, Scalar, Mul, mul, |a, b| Scalar(mulq(a.0, b.0), false));
 impl Neg for Scalar {
     type Output = Scalar;
     fn neg(self) -> Scalar {
-        Scalar(negq(self.0))
+        Scalar(negq(self.0), self.1)
     }
 }
 impl<'a> Neg for &'a Scalar {
     type Output = Scalar;
     fn neg(self) -> Scalar {
-        Scalar(negq(self.0))
+        Scalar(negq(self.0), self.1)
     }
 }
 impl AddAssign for Scalar {
@@ -556,12 +594,12 @@ mod tests {
     #[test]
     fn field_axioms_exhaustive() {
         for a in 0..Q as u16 {
-            let sa = Scalar(a);
+            let sa = Scalar(a, false);
             if a != 0 {
                 assert_eq!(sa * sa.invert().unwrap(), Scalar::ONE);
             }
             for b in 0..Q as u16 {
-                let sb = Scalar(b);
+                let sb = Scalar(b, false);
                 assert_eq!((sa + sb) - sb, sa);
                 assert_eq!(sa * sb, sb * sa);
                 assert_eq!(pairing(&G1Affine(a), &G2Affine(b)).0, mulq(a, b));
